@@ -897,3 +897,38 @@ def _(s1, d1, f1, s2, d2, f2, result):
 @c_sid_inj.canary('canary:ids-always-differ')
 def _(s1, d1, f1, s2, d2, f2, result):
     return result[0] != result[1]
+
+
+# ------------------------------------------------------------------------------------ numeric workbook indices ([1]Sheet!A1)
+# range2parts with an `excel_id`: the workbook is the one the host's link table gives for the index - directory included, even when
+# it is the empty (base) directory and the host itself lives in a sub-folder; index 0 is the host workbook.
+_LINKS = {'1': ('', 'b.xlsx'), '2': ('sub', 'b.xlsx'), '3': ('other/', 'c.xlsx')}
+
+
+def lemma_linked_workbook(which, hostdir, sheet, r1, c1):
+    from formulas.tokens.operand import range2parts
+    return range2parts(None, excel_id=which, external_links=dict(_LINKS), directory=hostdir, filename='a.xlsx', sheet=sheet, r1=r1, c1=c1)
+
+
+c_linked = Contract(lambda: lemma_linked_workbook,
+                    dict(which=OneOf(ConstT('0'), ConstT('1'), ConstT('2'), ConstT('3')), hostdir=OneOf(ConstT(''), ConstT('sub'), ConstT('deep/er')),
+                         sheet=StrT(), r1=DecT(1, MAXROW), c1=ColT()), 'C04',
+                    name='range2parts[workbook index]', use=['_build_sheet_id'])
+CONTRACTS.append(c_linked)
+
+
+@c_linked.requires
+def _(which, hostdir, sheet, r1, c1):
+    return _plain(sheet)
+
+
+@c_linked.ensures('the-index-denotes-the-workbook-of-the-link-table-with-its-directory', 'P')
+def _(which, hostdir, sheet, r1, c1, result):
+    d, f = (hostdir, 'a.xlsx') if which == '0' else _LINKS[which]
+    # (the cell part of the name is the business of the resolver contracts above; here: it is prefixed by the right workbook)
+    return result['sheet_id'] == spec_sheet_id(sheet, d, f) and result['name'] == result['sheet_id'] + '!' + result['ref']
+
+
+@c_linked.canary('canary:always-the-host-directory')
+def _(which, hostdir, sheet, r1, c1, result):
+    return result['sheet_id'] == spec_sheet_id(sheet, hostdir, 'a.xlsx' if which == '0' else _LINKS[which][1])
